@@ -7,6 +7,10 @@ import Driver.Proto
 import Driver.ValCodec
 import TableauVerif.Model.Patch
 import TableauVerif.Spec.C13
+import TableauVerif.Model.FieldProp
+import TableauVerif.Spec.C12
+import TableauVerif.Model.Time
+import TableauVerif.Spec.C20
 import TableauVerif.Model.Options
 import TableauVerif.Model.Excel
 import TableauVerif.Model.Xerrors
@@ -195,6 +199,79 @@ def c13 (fn : String) (a : List String) : Option String := do
     some (verdict (obs == valString (Spec.C13.expected d dst src)))
   | _, _ => none
 
+/-! ### C12 (field properties) -/
+def decRKind? (s : String) : Option FieldProp.RKind :=
+  match s with
+  | "int32" | "int64" | "sint32" | "sint64" | "sfixed32" | "sfixed64" => some .signed
+  | "uint32" | "uint64" | "fixed32" | "fixed64" => some .unsigned
+  | "string" => some .strlen
+  | "bool" | "bytes" => some .other
+  | _ => none
+
+def encRRes : FieldProp.RRes → String
+  | .ok => "ok" | .e2004 => "err 2004" | .invalid => "err 0" | .panic => "PANIC"
+
+def decRRes? (s : String) : Option FieldProp.RRes :=
+  match s with
+  | "ok" => some .ok | "err 2004" => some .e2004 | "err 0" => some .invalid | "PANIC" => some .panic
+  | _ => none
+
+/-- value argument: an integer, or (for strings) the text whose code points are counted -/
+def decRangeVal? (k : FieldProp.RKind) (s : String) : Option Int :=
+  match k with
+  | .strlen => (decStr? s).map (fun r => (r.length : Int))
+  | _ => decInt? s
+
+def c12 (fn : String) (a : List String) : Option String := do
+  match fn, a with
+  | "c12.range", [kind, range, v, p, pp] =>
+    let k ← decRKind? kind
+    some (encRRes (FieldProp.checkInRange (← decStr? range) k (← decRangeVal? k v) (← decBool? p) (← decBool? pp)))
+  | "o.c12.range", [kind, range, v, p, _pp, obs] =>
+    let k ← decRKind? kind
+    if (← decBool? p) then
+      some (Spec.C12.holdsRange (← decStr? range) k (← decRangeVal? k v) (← decRRes? obs)).toString
+    else some (if obs == "PANIC" then "FAILS" else "unspec")
+  | "c12.seq", seq :: key :: keys =>
+    let s ← (if seq == "-" then some none else (decInt? seq).map some)
+    let ks ← keys.mapM decInt?
+    some (encBool (FieldProp.checkSequence s (← decInt? key) ks))
+  | _, _ => none
+
+/-! ### C20 (date/time) -/
+/-- zone table `st:off,st:off,…` -/
+def decZone? (s : String) : Option Time.Zone :=
+  (s.splitOn ",").mapM fun e =>
+    match e.splitOn ":" with
+    | [a, b] => do some ((← decInt? a), (← decInt? b))
+    | _ => none
+
+def encTRes : Time.TRes → String
+  | .ok t => s!"ok {t}" | .err => "err" | .unmodelled => "unmodelled"
+
+def decTRes? (s : String) : Option Time.TRes :=
+  match s.splitOn " " with
+  | ["ok", t] => (decInt? t).map .ok
+  | ["err"] => some .err
+  | ["okn", _, _] => some .unmodelled      -- sub-second instant (fractional seconds in the cell)
+  | _ => none
+
+def c20 (fn : String) (a : List String) : Option String := do
+  match fn, a with
+  | "c20.ts", [_name, zone, raw] => some (encTRes (Time.parseTimestamp (← decZone? zone) (← decStr? raw)))
+  | "o.c20.ts", [_name, zone, raw, obs] =>
+    some (Spec.C20.holdsTs (← decZone? zone) (← decStr? raw) (← decTRes? obs)).toString
+  | _, _ => none
+
+/-! ### C05 (replays judged by "the call returned") -/
+def c05 (fn : String) (a : List String) : Option String := do
+  match fn, a with
+  | "c05.typeinfos", [_, _, _] => some "ok"          -- the model: disciplined threads always finish (C05_deadlock_free)
+  | "o.c05.typeinfos", [_, _, _, obs] => some (verdict (obs == "ok"))
+  | "c05.gen", _ => some "returned"
+  | "o.c05.gen", args => some (verdict (args.getLast? == some "returned"))
+  | _, _ => none
+
 def dispatch (line : String) : String :=
   match line.splitOn "\t" with
   | [] => "bad-op"
@@ -204,6 +281,9 @@ def dispatch (line : String) : String :=
       else if fn.startsWith "c07." || fn.startsWith "o.c07." then c07 fn args
       else if fn.startsWith "c03." || fn.startsWith "o.c03." then c03 fn args
       else if fn.startsWith "c13." || fn.startsWith "o.c13." then c13 fn args
+      else if fn.startsWith "c12." || fn.startsWith "o.c12." then c12 fn args
+      else if fn.startsWith "c20." || fn.startsWith "o.c20." then c20 fn args
+      else if fn.startsWith "c05." || fn.startsWith "o.c05." then c05 fn args
       else none
     r.getD "bad-op"
 
